@@ -951,6 +951,9 @@ def check_images(ctx, drv, ops_prefix, sets_json, bufsize, scratch, cap, label, 
     cls = (":" + extra["class"]) if extra and extra.get("class") else ""
     if extra and extra.get("parked_key"):
         cls_of = lambda k: cls + ("-parked" if k == extra["parked_key"] else "-running")
+    elif extra and extra.get("class") == "after-fault-same-store":
+        # the retried set itself (it returned, so it must be durable) vs. another key set later on the same store
+        cls_of = lambda k: cls + ("-retried-key" if k == extra.get("target_key") else "-other-key")
     else:
         cls_of = lambda k: cls
     from klongpy.db.helpers import deserialize_obj
@@ -1212,6 +1215,7 @@ def fault_history(ctx, drv, sets0, target, follow, bufsize, sk, flag, cap, R="",
                 actions = sets0 + [target] + retry + follow
                 extra = dict(kind="fault-history", sets0=[[k, v] for k, v in sets0], target=list(target),
                              follow=[[k, v] for k, v in follow], fault_before=_short(ops0[b], 120), boundary=b, mode=mode,
+                             target_key=full(R, target[0]),
                              **{"class": "after-fault-" + mode})
                 rec, err = real_run(ctx, actions, bufsize, root=base, R=R, fault_at=b)
                 if err is not None or not rec.fault_fired:
